@@ -45,7 +45,8 @@ def _case(draw, tier):
     size = draw(st.sampled_from(["none", "right", "wrong"]))
     if cks == "none" and size == "wrong":
         size = "right"
-    return {"cfg": cfg, "contents": [draw(gen.contents(max_small=20)), draw(gen.contents(max_small=20, big=False))],
+    return {"cfg": cfg, "root_via": draw(st.sampled_from([None, None, None, None, "symlink"])),
+            "contents": [draw(gen.contents(max_small=20)), draw(gen.contents(max_small=20, big=False))],
             "ops": draw(ops.history(op, 0, 6)), "pid": draw(st.sampled_from(PIDS)),
             "c": draw(st.integers(0, 1)), "cks": cks, "cks_algo": draw(gen.algo_spelling()), "size": size,
             "flip": draw(st.integers(0, 100)),
@@ -69,7 +70,12 @@ def run_case(case, ctx):
     present = cfg.digest(data) in start["objects"]
     rootB = os.path.join(run.work, "storeB")
     shutil.copytree(run.root, rootB)
-    sA, sB = common.make_store(run.root, cfg), common.make_store(rootB, cfg)
+    openA, openB = run.open_path, rootB
+    if case.get("root_via") == "symlink":
+        openB = os.path.join(run.work, "link-to-storeB")
+        os.symlink(rootB, openB)
+        ctx.classify("store-opened-through-a-symbolic-link")
+    sA, sB = common.make_store(openA, cfg), common.make_store(openB, cfg)
     cks = algo = None
     cks_ok = size_ok = True
     if case["cks"] != "none":
